@@ -136,7 +136,10 @@ class CodecLayout:
 
 
 class LayoutExtractor:
+    special_paths: Dict[str, list]
+
     def __init__(self, repo: Repo):
+        self.special_paths = {}
         self.repo = repo
         self.mods = [repo.module('pdu'), repo.module('userdataitems')]
         self.classes: Dict[str, ClassInfo] = {}
@@ -328,6 +331,20 @@ class LayoutExtractor:
         except SyntaxError:
             raise AnalysisError('%s: %s returns %s' % (m.loc(), m.qualname, terms[0]))
 
+    def return_paths(self, m: FuncInfo):
+        """[(return term, path conditions)] of a method, helpers inlined -- used when the paths do not agree on one term"""
+        from .sym import SymClient, empty_state
+        cl = SymClient(self.repo, m, event_of=lambda *a: None, inline=lambda fi: fi.module.name in ('pdu', 'userdataitems')
+                       and fi.name not in ('encode', 'decode'))
+        o = cl.run(empty_state())
+        if o.fall:
+            raise AnalysisError('%s: %s can fall off its end' % (m.loc(), m.qualname))
+        out = {}
+        for s_, _r in o.ret:
+            if s_.ret is not None:
+                out.setdefault(s_.ret, []).append(tuple(s_.conds))
+        return sorted(out.items())
+
     def total_length(self, c: ClassInfo) -> Optional[Affine]:
         m = c.find_method('total_length')
         if m is None:
@@ -340,9 +357,213 @@ class LayoutExtractor:
         """The encoder's return value as one expression over ``self`` attributes (locals substituted, helpers inlined by
         the provenance client), split into its parts."""
         f = c.find_method('encode')
-        ret = self.return_expr(f)
+        try:
+            ret = self.return_expr(f)
+        except AnalysisError as first:
+            # special-case paths ("one item: pack both headers at once"): a path taken only when a list attribute has a
+            # stated length is a specialisation; the remaining paths must agree on one term, the general encoder.  The
+            # specialisations are checked for byte-equivalence with it (special_path_problems).
+            from .sym import cond_eq
+            paths = self.return_paths(f)
+            special, general = [], []
+            for term, condsets in paths:
+                spec = None
+                for conds in condsets:
+                    hit = None
+                    import re as _re
+                    for name in sorted({m_ for cd in conds for m_ in _re.findall(r'len\(self\.(\w+)\)', cd)}):
+                        for k in (0, 1, 2, 3):
+                            if cond_eq(conds, 'len(self.%s)' % name, str(k)):
+                                hit = (name, k)
+                    if hit is None:
+                        spec = None
+                        break
+                    if spec is not None and spec != hit:
+                        spec = None
+                        break
+                    spec = hit
+                (special if spec is not None else general).append((term, spec))
+            if len(general) != 1 or not special:
+                raise first
+            ret = ast.parse(general[0][0], mode='eval').body
+            self.special_paths.setdefault(c.name, [])
+            for term, spec in special:
+                self.special_paths[c.name].append((spec[0], spec[1], ast.parse(term, mode='eval').body))
         self._cur_class = c.name
         return self._parts(ret, c, {}, f), f, {}
+
+    # ------------------------------------------------------------- special-case encoder paths
+    def _reroot(self, aff: Affine, prefix: str) -> Affine:
+        return Affine({(k[0], prefix + k[1]) if isinstance(k, tuple) and len(k) == 2 and isinstance(k[1], str) else k: v
+                       for k, v in aff.terms.items()}, aff.const)
+
+    def _flat_general(self, c: ClassInfo, prefix: str, lens: Dict[str, int], depth=0) -> List[tuple]:
+        """the general encoder of ``c`` as a flat list of byte atoms over the object at ``prefix`` (``self.``), list attributes
+        in ``lens`` expanded to that many items: ('f', char, width, big, value) | ('raw', path) | ('enc', path) | ('items', path)"""
+        if depth > 4:
+            raise AnalysisError('item nesting too deep at %s' % prefix)
+        lay = self.layout(c)
+        out: List[tuple] = []
+        for e in lay.enc:
+            if e[0] == 'f':
+                out.append(('f', e[1], e[2], e[3], self._value_nf_binding(e[4], c, prefix, lens, depth)))
+            elif e[0] == 'v' and e[1] == 'items':
+                name = e[2]
+                if prefix == 'self.' and name in lens:
+                    k = self._item_class(lay, name)
+                    for i in range(lens[name]):
+                        out.extend(self._flat_general(k, '%s%s[%d].' % (prefix, name, i), {}, depth + 1))
+                else:
+                    out.append(('items', prefix + name))
+            elif e[0] == 'v' and e[1] == 'bytes':
+                out.append(('raw', prefix + e[2]))
+            else:
+                out.append((e[1], prefix + str(e[2])))
+        return out
+
+    def _item_class(self, lay: CodecLayout, name: str) -> ClassInfo:
+        for d in lay.dec:
+            if d[0] == 'v' and d[1] == 'loop' and d[-1] == name and isinstance(d[2], LoopDesc):
+                names = set(d[2].accepts.values()) | ({d[2].default} if d[2].default else set())
+                if len(names) == 1:
+                    return self.classes[next(iter(names))]
+        raise AnalysisError('%s: item class of %s unknown' % (lay.cls.name, name))
+
+    def _expand_sums(self, aff: Affine, c: ClassInfo, prefix: str, lens: Dict[str, int], depth) -> Affine:
+        out = Affine({}, aff.const)
+        for k, v in aff.terms.items():
+            if isinstance(k, tuple) and k[0] == 'sum' and prefix == 'self.' and k[1] in lens:
+                kc = self._item_class(self.layout(c), k[1])
+                tl = self.layout(kc).total
+                if tl is None:
+                    raise AnalysisError('%s has no total_length' % kc.name)
+                for i in range(lens[k[1]]):
+                    out = out + self._expand_sums(tl, kc, '%s%s[%d].' % (prefix, k[1], i), {}, depth + 1).scale(v)
+            elif isinstance(k, tuple) and len(k) == 2 and isinstance(k[1], str):
+                out = out + Affine({(k[0], prefix + k[1]): v}, 0)
+            else:
+                out = out + Affine({k: v}, 0)
+        return out
+
+    def _value_nf_binding(self, b: tuple, c: ClassInfo, prefix: str, lens, depth) -> tuple:
+        if b[0] == 'type':
+            return ('const', b[2])
+        if b[0] == 'const':
+            return ('const', b[1])
+        if b[0] == 'length':
+            return ('aff', self._expand_sums(b[2], c, prefix, lens, depth))
+        if b[0] == 'len':
+            return ('aff', Affine.sym(('len', prefix + b[1])))
+        if b[0] == 'attr':
+            return ('attr', prefix + b[1])
+        return ('expr', prefix + str(b[1]))
+
+    def _obj_of(self, e: ast.expr, c: ClassInfo):
+        """(prefix, class) for an object path ``self`` / ``self.X[i]`` inside an encoder of ``c``"""
+        if isinstance(e, ast.Name) and e.id == 'self':
+            return 'self.', c
+        if isinstance(e, ast.Subscript) and isinstance(e.slice, ast.Constant) and isinstance(e.slice.value, int):
+            ch = attr_chain(e.value)
+            if ch and len(ch) == 2 and ch[0] == 'self':
+                return 'self.%s[%d].' % (ch[1], e.slice.value), self._item_class(self.layout(c), ch[1])
+        return None
+
+    def _value_nf_expr(self, a: ast.expr, c: ClassInfo, lens) -> tuple:
+        if isinstance(a, ast.Constant):
+            return ('const', a.value)
+        if isinstance(a, ast.Call) and isinstance(a.func, ast.Name) and a.func.id == 'len' and len(a.args) == 1 \
+                and isinstance(a.args[0], ast.Attribute):
+            o = self._obj_of(a.args[0].value, c)
+            if o is not None:
+                return ('aff', Affine.sym(('len', o[0] + a.args[0].attr)))
+        tl = a.func if isinstance(a, ast.Call) and not a.args and not a.keywords else a
+        if isinstance(tl, ast.Attribute):
+            o = self._obj_of(tl.value, c)
+            if o is not None:
+                prefix, k = o
+                name = tl.attr
+                lay = self.layout(k)
+                if name == 'total_length' and lay.total is not None:
+                    return ('aff', self._expand_sums(lay.total, k, prefix, lens if prefix == 'self.' else {}, 0))
+                if tl is a:
+                    b = self._binding(ast.Attribute(value=ast.Name(id='self', ctx=ast.Load()), attr=name, ctx=ast.Load()), k, {})
+                    return self._value_nf_binding(b, k, prefix, lens if prefix == 'self.' else {}, 0)
+        if isinstance(a, ast.BinOp) and isinstance(a.op, (ast.Add, ast.Sub)):
+            l, r = self._value_nf_expr(a.left, c, lens), self._value_nf_expr(a.right, c, lens)
+
+            def as_aff(x):
+                if x[0] == 'aff':
+                    return x[1]
+                if x[0] == 'const' and isinstance(x[1], int):
+                    return Affine.c(x[1])
+                return None
+            la, ra = as_aff(l), as_aff(r)
+            if la is not None and ra is not None:
+                return ('aff', la + ra if isinstance(a.op, ast.Add) else la - ra)
+        return ('expr', norm(a))
+
+    def _flat_special(self, e: ast.expr, c: ClassInfo, lens, f: FuncInfo) -> List[tuple]:
+        if isinstance(e, ast.BinOp) and isinstance(e.op, ast.Add):
+            return self._flat_special(e.left, c, lens, f) + self._flat_special(e.right, c, lens, f)
+        if isinstance(e, ast.Call):
+            fn = e.func
+            if isinstance(fn, ast.Attribute) and fn.attr == 'join' and isinstance(fn.value, ast.Constant) \
+                    and fn.value.value == b'' and len(e.args) == 1 and isinstance(e.args[0], (ast.List, ast.Tuple)):
+                out = []
+                for x in e.args[0].elts:
+                    out.extend(self._flat_special(x, c, lens, f))
+                return out
+            if isinstance(fn, ast.Attribute) and fn.attr == 'pack':
+                sv = self.struct_of(fn.value, c)
+                args = list(e.args)
+                fmt = sv.fmt if sv is not None else None
+                if fmt is None:
+                    v0 = self.repo.try_fold(fn.value, c.module, c)
+                    if isinstance(v0, StructVal):
+                        fmt = v0.fmt
+                if fmt is None and norm(fn) == 'struct.pack' and args and isinstance(args[0], ast.Constant):
+                    fmt, args = args[0].value, args[1:]
+                if fmt is None:
+                    raise AnalysisError('%s: pack on unknown struct %s' % (f.loc(), norm(fn.value)))
+                order, fields = parse_fmt(fmt)
+                if len(fields) != len(args) or any(isinstance(x, ast.Starred) for x in args):
+                    raise AnalysisError('%s: %d pack arguments for %d fields of %r' % (f.loc(), len(args), len(fields), fmt))
+                return [('f', ch, w, order in '>!', self._value_nf_expr(a, c, lens)) for (ch, w), a in zip(fields, args)]
+            if isinstance(fn, ast.Attribute) and fn.attr == 'encode' and not e.args:
+                o = self._obj_of(fn.value, c)
+                if o is not None and o[0] != 'self.':
+                    return self._flat_general(o[1], o[0], {}, 1)
+                ch = attr_chain(fn.value)
+                if ch and len(ch) == 2 and ch[0] == 'self':
+                    return [('enc', 'self.' + ch[1])]
+        if isinstance(e, ast.Attribute):
+            o = self._obj_of(e.value, c)
+            if o is not None:
+                return [('raw', o[0] + e.attr)]
+        raise AnalysisError('%s: special-case encoder part %s not recognised' % (f.loc(), norm(e)[:80]))
+
+    def special_path_problems(self, c: ClassInfo) -> Tuple[int, List[str]]:
+        """(number of special-case encoder paths, differences from the general encoder specialised to the same case)"""
+        lay = self.layout(c)
+        probs: List[str] = []
+        paths = self.special_paths.get(c.name, [])
+        for attr, k, term in paths:
+            lens = {attr: k}
+            want = self._flat_general(c, 'self.', lens)
+            got = self._flat_special(term, c, lens, lay.enc_f)
+
+            def show(a):
+                if a[0] == 'f':
+                    return "'%s' %s" % (a[1], a[4][1] if a[4][0] != 'aff' else repr(a[4][1]))
+                return '%s %s' % (a[0], a[1])
+            for i in range(max(len(want), len(got))):
+                w = want[i] if i < len(want) else None
+                g = got[i] if i < len(got) else None
+                if w != g:
+                    probs.append('with len(%s) == %d the special-case path emits %s where the general encoder emits %s (byte part %d)'
+                                 % (attr, k, show(g) if g else 'nothing', show(w) if w else 'nothing', i + 1))
+                    break
+        return len(paths), probs
 
     def _parts(self, e: ast.expr, c: ClassInfo, locs, f: FuncInfo) -> List[tuple]:
         if isinstance(e, ast.BinOp) and isinstance(e.op, ast.Add):
@@ -353,19 +574,30 @@ class LayoutExtractor:
             if isinstance(fn, ast.Attribute) and fn.attr == 'join' and isinstance(fn.value, ast.Constant) \
                     and fn.value.value == b'' and len(e.args) == 1:
                 a = e.args[0]
-                if isinstance(a, (ast.List, ast.Tuple)):
-                    out = []
-                    for x in a.elts:
-                        out.extend(self._parts(x, c, locs, f))
-                    return out
-                if isinstance(a, (ast.ListComp, ast.GeneratorExp)) and len(a.generators) == 1:
-                    g = a.generators[0]
-                    src = attr_chain(g.iter)
-                    elt = a.elt
-                    if src and len(src) == 2 and src[0] == 'self' and isinstance(g.target, ast.Name) and not g.ifs \
-                            and isinstance(elt, ast.Call) and not elt.args \
-                            and attr_chain(elt.func) == (g.target.id, 'encode'):
-                        return [('v', 'items', src[1])]
+
+                def seq_parts(a):
+                    if isinstance(a, (ast.List, ast.Tuple)) and not any(isinstance(x, ast.Starred) for x in a.elts):
+                        out = []
+                        for x in a.elts:
+                            out.extend(self._parts(x, c, locs, f))
+                        return out
+                    if isinstance(a, ast.BinOp) and isinstance(a.op, ast.Add):
+                        l, r = seq_parts(a.left), seq_parts(a.right)
+                        return None if l is None or r is None else l + r
+                    if isinstance(a, ast.Call) and isinstance(a.func, ast.Name) and a.func.id in ('list', 'tuple') and len(a.args) == 1:
+                        return seq_parts(a.args[0])
+                    if isinstance(a, (ast.ListComp, ast.GeneratorExp)) and len(a.generators) == 1:
+                        g = a.generators[0]
+                        src = attr_chain(g.iter)
+                        elt = a.elt
+                        if src and len(src) == 2 and src[0] == 'self' and isinstance(g.target, ast.Name) and not g.ifs \
+                                and isinstance(elt, ast.Call) and not elt.args \
+                                and attr_chain(elt.func) == (g.target.id, 'encode'):
+                            return [('v', 'items', src[1])]
+                    return None
+                got = seq_parts(a)
+                if got is not None:
+                    return got
                 raise AnalysisError('%s: join argument %s not recognised' % (f.loc(e), norm(a)[:60]))
             # S.pack(...)
             if isinstance(fn, ast.Attribute) and fn.attr == 'pack':
